@@ -390,8 +390,25 @@ def headRows (hargs : List HTerm) (envs : List Env) : Option (List Tuple) :=
 def headOf (r : Rule) (envs : List Env) : Option (List Tuple) :=
   if r.hasAgg then aggRows r.hargs envs else headRows r.hargs envs
 
+/-- Spec reading of an aggregate head: one row per distinct binding of the plain head terms, every
+    head term — plain or aggregate — *in its head position*. -/
+def aggRowsSpec (hargs : List HTerm) (envs : List Env) : Option (List Tuple) :=
+  let keys := dedupT (keysOf hargs envs)
+  optMapM (fun k =>
+    let grp := envs.filter (fun env => groupKey hargs env == some k)
+    match grp with
+    | [] => none
+    | rep :: _ =>
+      optMapM (fun (h : HTerm) =>
+        match h with
+        | .agg f x => aggVal f (grp.filterMap (fun env => env.lookup x))
+        | h => h.plain rep) hargs) keys
+
+def headOfSpec (r : Rule) (envs : List Env) : Option (List Tuple) :=
+  if r.hasAgg then aggRowsSpec r.hargs envs else headRows r.hargs envs
+
 /-- The tuples one rule derives from a database (given as a lookup function): Spec reading. -/
-def evalRuleLk (lk : String → List Tuple) (r : Rule) : Option (List Tuple) := headOf r (bodyEnvs lk r)
+def evalRuleLk (lk : String → List Tuple) (r : Rule) : Option (List Tuple) := headOfSpec r (bodyEnvs lk r)
 
 def evalRule (db : DB) (r : Rule) : Option (List Tuple) := evalRuleLk db.get r
 
@@ -491,15 +508,21 @@ def isFix (p : Program) (edb db : DB) : Bool :=
     | some ts => sameSet (db.get h) (unionT (dedupT (edb.get h)) ts)
     | none => false)
 
-/-- The Spec oracle. `some M`: `M` is the stratified least model (it was reached as the limit of
-    the stratum-wise naive iteration from `edb`, and it passes `isFix`). -/
+/-- the heads' contents of `db` laid over the stored relations `edb`. -/
+def overlay (hs : List String) (db edb : DB) : DB := hs.map (fun h => (h, db.get h)) ++ edb
+
+/-- The Spec oracle. `some M`: `M` is the stratified least model (its head relations were reached
+    as the limit of the stratum-wise naive iteration from `edb`, every other relation is as
+    stored, and `M` passes the whole-program check `isFix`). -/
 def pmEval (fuel : Nat) (p : Program) (edb : DB) : Option DB :=
   match stratify p with
   | none => none
   | some rk =>
     let start : DB := (heads p).foldl (fun d h => d.set h (dedupT (edb.get h))) edb
     match evalStrata p rk fuel (List.range ((heads p).length + 1)) start with
-    | some db => if isFix p edb db then some db else none
+    | some db =>
+      let m := overlay (heads p) db edb
+      if isFix p edb m then some m else none
     | none => none
 
 /-! ## Wire encoding
